@@ -46,7 +46,15 @@ pub fn describe_error(e: &Error, src: &str) -> String {
     }
 }
 
+/// converts plain std maps into the crate's (hook-controlled) map type, entries sorted by key
+pub fn to_consts(consts: HashMap<String, HashMap<String, garble_lang::literal::Literal>>) -> garble_lang::GarbleConsts {
+    let mut outer: Vec<(String, HashMap<String, garble_lang::literal::Literal>)> = consts.into_iter().collect();
+    outer.sort_by(|a, b| a.0.cmp(&b.0));
+    outer.into_iter().map(|(p, m)| (p, garble_lang::verif_hooks::HashMap::from(m))).collect()
+}
+
 pub fn compile(src: &str, cfg: Config, consts: HashMap<String, HashMap<String, garble_lang::literal::Literal>>) -> CompileOutcome {
+    let consts = to_consts(consts);
     let opts = CompileOptions {
         circuit_kind: if cfg.register { CircuitKind::Register } else { CircuitKind::Ssa },
         consts,
